@@ -102,6 +102,9 @@ class Contract:
         self.defaults = d.get("defaults", {})     # parameter defaults (must equal the source's; checked structurally)
         self.inv_exclude_pre = d.get("inv_exclude_pre", [])   # invariant clauses (by name prefix) not needed at entry
         self.assume_entry = d.get("assume_entry", {})
+        self.probe = d.get("probe", False)         # known-finding probe: a variant verified WITHOUT a usage assumption
+        self.probe_only = d.get("probe_only", [])  # ... of which only these obligations (substrings) are reported
+        self.drop_callee_ensures = d.get("drop_callee_ensures", {})   # callee contract -> ensures-name prefixes not assumed
         self.ctor = d.get("ctor", False)          # constructor: invariant asserted at exit only
         self.ghost_exit = d.get("ghost_exit", {}) # ghost assignments executed at every normal exit
         self.check_frame = d.get("check_frame", True)
@@ -1675,6 +1678,8 @@ class Task:
                 clauses = dict(c.ensures)
                 clauses.update(c.ensures_for.get(self_cls, {}))
                 clauses.update(c.ensures_for_caller.get(self.receiver, {}))
+                drop = self.contract.drop_callee_ensures.get(c.name, [])
+                clauses = {k: v for k, v in clauses.items() if not any(k.startswith(x) for x in drop)}
             else:
                 clauses = c.ensures_raise
             for k, t in clauses.items():
